@@ -8,7 +8,7 @@ from ..monitors import find_token, find_token_deep
 
 PLAN = {
     "quick": {"shards": 8, "cases": 250, "min_nontrivial": 1500, "budget_s": 300},
-    "thorough": {"shards": 16, "cases": 3500, "min_nontrivial": 30000, "budget_s": 1500},
+    "thorough": {"shards": 16, "cases": 4000, "min_nontrivial": 22400, "budget_s": 1500},
 }
 RULE = ("a case marks a random subset of fields (text, host, integer, boolean, bytes, secret with sensitive on/off, "
         "challenge, list of text) as sensitive at the root, in sub-schemas of depth 1-2, in a config-type field and in "
